@@ -212,16 +212,126 @@ func ruleTAsm(c *Ctx) {
 			c.Undecided("T-asm", "ToASM/data-flag", fn.Pos(), "the data-script flag is neither merged from tests of the script's leading bytes nor the result of a predicate on the script")
 			return
 		}
-		cp, err := enumPaths(callee.Blocks[0], nil, nil, 1024)
-		if err != nil {
-			c.Undecided("T-asm", "ToASM/data-flag", callee.Pos(), err.Error())
-			return
-		}
 		badFlag := ""
 		fcells := 0
 		for _, ln := range []int64{1, 2, 3, 30} {
 			for _, s0 := range []int64{0x00, 0x51, 0x6a, 0x76} {
 				for _, s1 := range []int64{0x00, 0x51, 0x6a} {
+					hits, val, why := predOnBytes(callee, ln, s0, s1)
+					if why != "" {
+						c.Undecided("T-asm", "ToASM/data-flag", callee.Pos(), why)
+						return
+					}
+					fcells++
+					isDataScript := s0 == 0x6a || (s0 == 0 && s1 == 0x6a && ln > 1)
+					if hits == 1 && val && !isDataScript && badFlag == "" {
+						badFlag = fmt.Sprintf("a script of %d bytes starting %02x %02x is treated as a data script", ln, s0, s1)
+					}
+					if hits != 1 && badFlag == "" && ln > 1 {
+						badFlag = fmt.Sprintf("the data-script predicate is not decided by the leading bytes alone (length %d, %02x %02x: %d alternatives)", ln, s0, s1, hits)
+					}
+				}
+			}
+		}
+		c.Check(badFlag == "", "T-asm", "ToASM/data-flag", callee.Pos(), fmt.Sprintf("only scripts starting OP_RETURN or OP_FALSE OP_RETURN get the data rendering (%d cells, predicate %s)", fcells, funcName(callee)), "ToASM: "+badFlag)
+		return
+	}
+	pre, err := enumPaths(fn.Blocks[0], nil, map[*ssa.BasicBlock]bool{flag.Block(): true}, 4096)
+	if err != nil {
+		c.Undecided("T-asm", "ToASM/data-flag", fn.Pos(), err.Error())
+		return
+	}
+	pre = filterFeasible(pre)
+	badFlag := ""
+	fcells := 0
+	for _, ln := range []int64{1, 2, 3, 30} {
+		for _, s0 := range []int64{0x00, 0x51, 0x6a, 0x76} {
+			for _, s1 := range []int64{0x00, 0x51, 0x6a} {
+				// the values the flag can take for such a script: one of them means decided
+				vals := map[string]bool{}
+				for _, d := range pre {
+					if d.EndKind != "stop" || len(d.Blocks) == 0 {
+						continue
+					}
+					holds := true
+					for _, pc := range d.Conds {
+						bases := map[string]*T{}
+						baseTerms(pc.Cond, bases)
+						asg := map[string]*big.Int{}
+						for k := range bases {
+							switch {
+							case strings.HasPrefix(k, "len(*p0)"):
+								asg[k] = big.NewInt(ln)
+							case strings.HasSuffix(k, "[0]"):
+								asg[k] = big.NewInt(s0)
+							case strings.HasSuffix(k, "[1]"):
+								asg[k] = big.NewInt(s1)
+							}
+						}
+						v, ok := evalTerm(pc.Cond, asg)
+						if !ok {
+							// a nil test of the script: these cells are scripts that exist
+							if k, flip := canonAtom(pc.Cond.String()); k == "p0 == nil" || k == "(p0 == nil)" {
+								if (pc.Truth != flip) == true {
+									holds = false
+								}
+							}
+							continue // other conditions not about the script's bytes (decode error)
+						}
+						if (v.Sign() != 0) != pc.Truth {
+							holds = false
+						}
+					}
+					if !holds {
+						continue
+					}
+					last := d.Blocks[len(d.Blocks)-1]
+					for i, p := range flag.Block().Preds {
+						if p != last {
+							continue
+						}
+						e := d.Env.Val(flag.Edges[i])
+						if k, isK := e.(*ssa.Const); isK && k.Value != nil && k.Value.Kind() == constant.Bool {
+							vals[fmt.Sprint(constant.BoolVal(k.Value))] = true
+						} else if call, isCall := e.(*ssa.Call); isCall && call.Call.StaticCallee() != nil && inScope(pkgPathOf(call.Call.StaticCallee())) &&
+							len(call.Call.StaticCallee().Params) == 1 && len(call.Call.Args) == 1 && d.Env.Val(call.Call.Args[0]) == ssa.Value(fn.Params[0]) {
+							// the flag is a predicate on the same script
+							h, v, why := predOnBytes(call.Call.StaticCallee(), ln, s0, s1)
+							if why != "" || h != 1 {
+								vals["?"] = true
+							} else {
+								vals[fmt.Sprint(v)] = true
+							}
+						} else {
+							vals["?"] = true
+						}
+					}
+				}
+				fcells++
+				isDataScript := s0 == 0x6a || (s0 == 0 && s1 == 0x6a && ln > 1)
+				if len(vals) == 1 && vals["true"] && !isDataScript && badFlag == "" {
+					badFlag = fmt.Sprintf("a script of %d bytes starting %02x %02x is treated as a data script", ln, s0, s1)
+				}
+				if (len(vals) != 1 || vals["?"]) && badFlag == "" && ln > 1 {
+					badFlag = fmt.Sprintf("the data-script flag is not decided by the leading bytes alone (length %d, %02x %02x: %v)", ln, s0, s1, keysSorted(vals))
+				}
+			}
+		}
+	}
+	c.Check(badFlag == "", "T-asm", "ToASM/data-flag", fn.Pos(), fmt.Sprintf("only scripts starting OP_RETURN or OP_FALSE OP_RETURN get the data rendering (%d cells)", fcells), "ToASM: "+badFlag)
+}
+
+// predOnBytes evaluates a one-argument predicate on a script (IsData) for a script of length ln whose first
+// bytes are s0, s1: the number of alternatives its decision structure leaves and the value.
+func predOnBytes(callee *ssa.Function, ln, s0, s1 int64) (int, bool, string) {
+	cp, err := enumPaths(callee.Blocks[0], nil, nil, 1024)
+	if err != nil {
+		return 0, false, err.Error()
+	}
+	{
+		{
+			{
+				{
 					hits, val := 0, false
 					for _, d := range cp {
 						if d.EndKind != "return" {
@@ -247,8 +357,7 @@ func ruleTAsm(c *Ctx) {
 						for _, pc := range d.Conds {
 							v, ok := evalTerm(pc.Cond, asgOf(pc.Cond))
 							if !ok {
-								c.Undecided("T-asm", "ToASM/data-flag", callee.Pos(), "the data-script predicate decides on "+atomName(pc.Cond))
-								return
+								return 0, false, "the data-script predicate decides on " + atomName(pc.Cond)
 							}
 							if (v.Sign() != 0) != pc.Truth {
 								holds = false
@@ -266,83 +375,9 @@ func ruleTAsm(c *Ctx) {
 						hits++
 						val = rv.Sign() != 0
 					}
-					fcells++
-					isDataScript := s0 == 0x6a || (s0 == 0 && s1 == 0x6a && ln > 1)
-					if hits == 1 && val && !isDataScript && badFlag == "" {
-						badFlag = fmt.Sprintf("a script of %d bytes starting %02x %02x is treated as a data script", ln, s0, s1)
-					}
-					if hits != 1 && badFlag == "" && ln > 1 {
-						badFlag = fmt.Sprintf("the data-script predicate is not decided by the leading bytes alone (length %d, %02x %02x: %d alternatives)", ln, s0, s1, hits)
-					}
-				}
-			}
-		}
-		c.Check(badFlag == "", "T-asm", "ToASM/data-flag", callee.Pos(), fmt.Sprintf("only scripts starting OP_RETURN or OP_FALSE OP_RETURN get the data rendering (%d cells, predicate %s)", fcells, funcName(callee)), "ToASM: "+badFlag)
-		return
-	}
-	pre, err := enumPaths(fn.Blocks[0], nil, map[*ssa.BasicBlock]bool{flag.Block(): true}, 4096)
-	if err != nil {
-		c.Undecided("T-asm", "ToASM/data-flag", fn.Pos(), err.Error())
-		return
-	}
-	badFlag := ""
-	fcells := 0
-	for _, ln := range []int64{1, 2, 3, 30} {
-		for _, s0 := range []int64{0x00, 0x51, 0x6a, 0x76} {
-			for _, s1 := range []int64{0x00, 0x51, 0x6a} {
-				hits, val := 0, false
-				for _, d := range pre {
-					if d.EndKind != "stop" || len(d.Blocks) == 0 {
-						continue
-					}
-					holds := true
-					for _, pc := range d.Conds {
-						bases := map[string]*T{}
-						baseTerms(pc.Cond, bases)
-						asg := map[string]*big.Int{}
-						for k := range bases {
-							switch {
-							case strings.HasPrefix(k, "len(*p0)"):
-								asg[k] = big.NewInt(ln)
-							case strings.HasSuffix(k, "[0]"):
-								asg[k] = big.NewInt(s0)
-							case strings.HasSuffix(k, "[1]"):
-								asg[k] = big.NewInt(s1)
-							}
-						}
-						v, ok := evalTerm(pc.Cond, asg)
-						if !ok {
-							continue // conditions not about the script's bytes (nil test, decode error)
-						}
-						if (v.Sign() != 0) != pc.Truth {
-							holds = false
-						}
-					}
-					if !holds {
-						continue
-					}
-					last := d.Blocks[len(d.Blocks)-1]
-					for i, p := range flag.Block().Preds {
-						if p == last {
-							if k, isK := d.Env.Val(flag.Edges[i]).(*ssa.Const); isK && k.Value != nil && k.Value.Kind() == constant.Bool {
-								hits++
-								val = constant.BoolVal(k.Value)
-							} else {
-								hits += 2
-							}
-						}
-					}
-				}
-				fcells++
-				isDataScript := s0 == 0x6a || (s0 == 0 && s1 == 0x6a && ln > 1)
-				if hits == 1 && val && !isDataScript && badFlag == "" {
-					badFlag = fmt.Sprintf("a script of %d bytes starting %02x %02x is treated as a data script", ln, s0, s1)
-				}
-				if hits != 1 && badFlag == "" && ln > 1 {
-					badFlag = fmt.Sprintf("the data-script flag is not decided by the leading bytes alone (length %d, %02x %02x: %d alternatives)", ln, s0, s1, hits)
+					return hits, val, ""
 				}
 			}
 		}
 	}
-	c.Check(badFlag == "", "T-asm", "ToASM/data-flag", fn.Pos(), fmt.Sprintf("only scripts starting OP_RETURN or OP_FALSE OP_RETURN get the data rendering (%d cells)", fcells), "ToASM: "+badFlag)
 }
